@@ -660,6 +660,7 @@ def install(reg):
              piece_roots(P ++ D) == piece_roots(P) ++ [ mroot(leaves(D) ++ zero_digests(npad)) ]
         for the padding count npad that _valid_padding allows (it is unique: L4, two powers of two in [n, 2n) are equal).
         Alignment of P is stated with its witness k (len P == k * piece length): no modulus by a symbolic value"""
+        p.engine.assumption('spec function piece_roots: defined by ground unfolding (proots_step); the padding count is unique by L4 (two powers of two in [n, 2n) are equal) -- not machine-checked')
         f = p.engine.uf("piece_roots", BYTES, I, PVSEQ)
         lv = p.engine.uf("leaves", BYTES, PVSEQ)
         Pt, Dt, n, a, kt = p.bytes_term(P_), p.bytes_term(D_), p.as_int(npad), p.as_int(amount), p.as_int(k)
@@ -689,6 +690,7 @@ def install(reg):
 
     def s_hpieces_step(p, P_, D_, pl, pad, k):
         """ground instance of the definition of hybrid_pieces, unfolding from the right"""
+        p.engine.assumption('spec function hybrid_pieces: defined by ground unfolding (hpieces_step)')
         f = p.engine.uf("hybrid_pieces", BYTES, I, B, PVSEQ)
         sha = p.engine.uf("sha1", BYTES, BYTES)
         Pt, Dt, n, pd, kt = p.bytes_term(P_), p.bytes_term(D_), p.as_int(pl), p.truth(pad), p.as_int(k)
@@ -1073,6 +1075,7 @@ def install_more(reg):
 
     def s_under_unfold(p, path, f):
         """ground instance of the definition of file_under at `path`"""
+        p.engine.assumption('spec functions file_under / size_under: the regular files at or below a path, defined by the recursion over directory entries (ground unfolding instances)')
         u, ua, fs = _under(p)
         t, ft = str_term(p, path), str_term(p, f)
         k = kind_at(p, fs.kind, t)
@@ -1156,6 +1159,7 @@ def install_more(reg):
     def s_file_root_def(p, content, amount, L):
         """ground instance of the definition: the root is the merkle root of ANY list L that consists of the piece roots of the
         content followed by zero-piece roots up to the next power of two (that list is unique: L4)"""
+        p.engine.assumption('spec function file_root: merkle root of the piece roots of the content padded with zero-piece roots to the next power of two (file_root_def; the padded list is unique by L4)')
         fr = p.engine.uf("file_root", BYTES, I, BYTES)
         ct, a = p.bytes_term(content), p.as_int(amount)
         Ls = p.list_seq(p.deref(L)) if not isinstance(L, VBox) else PV.items(L.t)
@@ -1191,6 +1195,7 @@ def install_more(reg):
 
     def s_tree_unfold(p, path, amount):
         """ground instance of the definition of tree_of at path"""
+        p.engine.assumption("spec function tree_of: BEP 52 file tree of a path -- {'': {length[, pieces root]}} for a file, {name: tree_of(child)} over sorted(os.listdir) for a directory, {} otherwise (ground unfolding instances)")
         to, tf, fs = _tree_ufs(p)
         t, a = str_term(p, path), p.as_int(amount)
         k = kind_at(p, fs.kind, t)
@@ -1243,6 +1248,7 @@ def install_more(reg):
     SF["layered_under_first"] = s_layered_under_first
 
     def s_layered_unfold(p, path, k, pl):
+        p.engine.assumption('spec function layered_under: k is the pieces root of a file larger than one piece at or below the path (ground unfolding instances)')
         bu, bf, fs = _big(p)
         t, kt, n = str_term(p, path), p.bytes_term(k), p.as_int(pl)
         kd = kind_at(p, fs.kind, t)
